@@ -20,7 +20,7 @@ structure DrvState where
   me : MEDrv.Sess := {}
   pool : PoolDrv.Sess := {}
   pb : PbDrv.Sess := {}
-  st : Option GcpVerif.Stream.St := none
+  st : StDrv.Sess := {}
   gme : GmeDrv.Sess := {}
 
 instance : Inhabited DrvState := ⟨{}⟩
